@@ -90,15 +90,61 @@ def run(chk, repo):
     skeys = {const_str(k) for k in sn[-1].keys} if sn and isinstance(sn[-1], ast.Dict) else None
     chk.require(tkeys is not None and tkeys == skeys, "C14-S5", f"{mod.relpath}:transform_summary", f"sections {sorted(skeys or [])} each have a transformer and a name",
                 f"section_names keys {sorted(skeys or [])} != transformer keys {sorted(tkeys or [])}", key="sections:agree")
-    # keys are lower-cased before lookup
-    lowered = any(isinstance(c.func, ast.Name) and c.func.id == "keymap" and c.args and norm(c.args[0]) == "str.lower" for c in calls_in(ps))
-    chk.require(lowered, "C14-S5", f"{mod.relpath}:parse_summary", "section ids are lower-cased before the table lookup", "section ids are no longer lower-cased: 'Odi' never matches the table key 'odi'", key="sections:lower")
-    # S6
-    grouped = any(isinstance(c.func, ast.Name) and c.func.id == "curry" and c.args and norm(c.args[0]) == "groupby" and "section" in norm(c) for c in calls_in(ps))
-    merged = any("merge" in norm(c) and "keyword" in norm(c) and "value" in norm(c) for c in calls_in(ps))
-    chk.require(grouped, "C14-S6", f"{mod.relpath}:parse_summary", "entries are grouped by their section", "entries are not grouped by section", key="parse_summary:groupby")
-    chk.require(merged, "C14-S6", f"{mod.relpath}:parse_summary", "each section is the merge of {keyword: value} dicts", "sections are not merged from {keyword: value} items", key="parse_summary:merge")
+    chk.attempt(grouping_semantics, chk, repo, mod)
     chk.count("functions", 3)
+
+
+def grouping_semantics(chk, repo, mod):
+    """S5/S6: the statements of parse_summary that follow the line loop are evaluated (constant propagation in the shape
+    interpreter) on entries whose sections are interleaved, in mixed case and in several orders: the result must be one
+    dict per lower-cased section holding all its keywords, whatever the order"""
+    from ..shapes import Const, DictS, Interp, ListLit, ShapeError, _Raise, _Return, Scope
+    from ..shapes_lib import to_py
+    ps = mod.func("parse_summary")
+    where = f"{mod.relpath}:parse_summary"
+    loop = _line_loop(ps)
+    tail = [st for st in ps.node.body if st.lineno > loop.end_lineno and not (isinstance(st, ast.If) and any(isinstance(x, ast.Raise) for x in ast.walk(st)))]
+    if not tail:
+        raise AnalysisError(f"{where}: nothing follows the line loop")
+
+    def entry(sec, kw, val):
+        return DictS({"section": Const(sec), "keyword": Const(kw), "value": Const(val)})
+
+    orders = {
+        "contiguous": [("Odi", "A", "1"), ("Odi", "B", "2"), ("Scs", "C", "3"), ("Pds", "D", "4")],
+        "interleaved": [("Scs", "C", "3"), ("Odi", "A", "1"), ("Pds", "D", "4"), ("Odi", "B", "2")],
+        "reversed": [("Pds", "D", "4"), ("Scs", "C", "3"), ("Odi", "B", "2"), ("Odi", "A", "1")],
+        "split section": [("Odi", "A", "1"), ("Scs", "C", "3"), ("Odi", "B", "2"), ("Pds", "D", "4")],
+    }
+    want = {"odi": {"A": "1", "B": "2"}, "scs": {"C": "3"}, "pds": {"D": "4"}}
+
+    def plain(v):
+        if isinstance(v, DictS):
+            return {k: plain(x) for k, x in v.items.items()}
+        if isinstance(v, Const):
+            return v.v
+        return repr(v)
+
+    for label, ents in orders.items():
+        I = Interp(repo)
+        sc = I.module_scope(mod).child(owner=ps)
+        entries_name = None
+        for n in ast.walk(loop):
+            if isinstance(n, ast.Call) and isinstance(n.func, ast.Attribute) and n.func.attr == "append" and isinstance(n.func.value, ast.Name):
+                entries_name = n.func.value.id
+        if entries_name is None:
+            raise AnalysisError(f"{where}: the list the parsed lines are appended to was not found")
+        sc.vars[entries_name] = ListLit([entry(*e) for e in ents])
+        try:
+            I.exec_block(tail, sc, [])
+            raise AnalysisError(f"{where}: the statements after the line loop do not return")
+        except _Return as r:
+            got = plain(r.v)
+        except (_Raise, ShapeError) as e:
+            raise AnalysisError(f"{where}: cannot evaluate the grouping of the entries ({label}): {e}")
+        chk.require(got == want, "C14-S6", where, f"entries in {label} order -> {got}",
+                    f"entries in {label} order are grouped into {got}, expected {want}: sections are not merged independently of line order / case", key=f"parse_summary:grouping:{label}",
+                    sample={"order": label, "result": got})
 
 
 def _line_loop(ps):
